@@ -360,6 +360,7 @@ impl<'a> GeneratorState<'a> {
                                         self.tmp_in_use = true;
                                     }
                                     self.asm(LDY, &ExprType::Immediate(0), pos, false)?;
+                                    self.flags = FlagsState::Y;
                                     Ok(ExprType::AbsoluteY(var.into()))
                                 }
                             }
@@ -830,6 +831,7 @@ impl<'a> GeneratorState<'a> {
                                 }
                                 self.asm_save_y(dummy_pos);
                                 self.asm(LDY, &sub_output, pos, false)?;
+                                self.flags = FlagsState::Y;
                                 self.saved_y = true;
                                 Ok(ExprType::AbsoluteY(variable.into()))
                             } else {
@@ -851,6 +853,7 @@ impl<'a> GeneratorState<'a> {
                                 }
                                 self.asm_save_y(dummy_pos);
                                 self.asm(LDY, &sub_output, pos, false)?;
+                                self.flags = FlagsState::Y;
                                 self.saved_y = true;
                                 Ok(ExprType::AbsoluteY(variable.into()))
                             } else {
@@ -1061,6 +1064,8 @@ impl<'a> GeneratorState<'a> {
 
     fn generate_asm_statement(&mut self, s: &str, size: Option<u32>) -> Result<(), Error> {
         self.inline(s, size)?;
+        self.flags = FlagsState::Unknown;
+        self.carry_flag_ok = false;
         Ok(())
     }
 
@@ -1156,6 +1161,7 @@ impl<'a> GeneratorState<'a> {
                     .syntax_error("Unsupported cycle sleep value", pos))
             }
         };
+        self.flags = FlagsState::Unknown;
         Ok(())
     }
 
@@ -1190,6 +1196,7 @@ impl<'a> GeneratorState<'a> {
             _ => self.asm(if load { LDA } else { STA }, expr, pos, false)?,
         };
         self.protected = false;
+        self.flags = FlagsState::Unknown;
         Ok(())
     }
 
